@@ -911,6 +911,22 @@ func (x *inst[N, L]) battery(what *callDesc) *space.Mismatch {
 					return mm
 				}
 			}
+			// read calls issued from inside the callback (a complete RangeWithRange over everything, Get,
+			// Len): reads do not change the map, so the outer enumeration must be unaffected
+			if hi-lo >= 1 {
+				*what = callDesc{name: "RangeWithRange (with another RangeWithRange, Get and Len called from its callback)", n: 2, a: s, b: e}
+				col.reset(never)
+				inner := 0
+				l.RangeWithRange(s, e, func(k, v int) bool {
+					l.RangeWithRange(0, nq-1, func(int, int) bool { inner++; return true })
+					l.Get(k)
+					l.Len()
+					return col.add(k, v)
+				})
+				if mm := x.expect(*what, lo, hi, never); mm != nil {
+					return mm
+				}
+			}
 		}
 	}
 	return nil
